@@ -482,8 +482,9 @@ fn oracle_ex(c: &Ex) -> Verdict {
         let variants: [(usize, bool, Lay, &str); 4] = [
             (1, false, Lay::Row, "gemv"),
             (1, false, Lay::Col, "gemv-transposed"),
-            (1, true, Lay::Row, "gemm-Apacked"),
             (2, false, Lay::Row, "gemm-2rows"),
+            // last: on the unfixed tree this variant hits the known prepacked-zero-point defect
+            (1, true, Lay::Row, "gemm-Apacked"),
         ];
         for (rows, a_packed, b_lay, vname) in variants {
             let a = Strided::build(rows, k, Lay::Row, 0x5Au8, |_, _| c.a);
